@@ -280,13 +280,13 @@ inductive Eff (c : Cfg) (s : St) (info : OpInfo) : St → List Event → Prop
   | noop : Eff c s info s []
   | create (typ : PType) (owner : Addr) (n : Name) (amt : Nat) (tt : Bool) (b' : Bal) (ev : List Event)
       (hi : info = .sub typ owner n amt)
-      (hOn : typ ≠ .lockERC → has s.ongoing n = false)
-      (hPa : typ ≠ .lockERC → has s.passed n = false)
-      (hFa : typ = .redeem → has s.failed n = false)
+      (hOn : has s.ongoing n = false)
+      (hPa : has s.passed n = false)
+      (hFa : typ.isLock = false → has s.failed n = false)
       (hbal : (typ.isLock = true ∧ b' = s.bal ∧ ev = []) ∨
               (typ.isLock = false ∧ ev = [.debit n owner typ.cur amt] ∧
                 ∃ b1, balSub s.bal owner typ.cur amt = some b1 ∧ balSub b1 c.supply typ.cur amt = some b')) :
-      Eff c s info { s with bal := b', failed := if typ = .lock then aerase s.failed n else s.failed,
+      Eff c s info { s with bal := b', failed := if typ.isLock then aerase s.failed n else s.failed,
                             ongoing := upsert s.ongoing n (newTracker typ owner n amt tt c.witnesses) } ev
   | vote (n : Name) (t t' : Tracker) (locker voter : Addr) (idx : Int) (okv : Bool)
       (hi : info = .rep n locker voter idx okv)
@@ -297,7 +297,7 @@ inductive Eff (c : Cfg) (s : St) (info : OpInfo) : St → List Event → Prop
       (hi : info = .rep n locker voter idx okv)
       (hget : alookup n s.ongoing = some t) (hnf : t.finalized = false) (hnx : t.failedV = false)
       (hv : addVote t voter idx okv = .ok t') (h1 : t'.finalized = true) (hl : t'.typ.isLock = true) :
-      Eff c s info (mint c s t' locker) [.mint n locker t'.typ.cur t'.amount]
+      Eff c s info (mint c s t') [.mint n t'.owner t'.typ.cur t'.amount]
   | burn (n : Name) (t t' : Tracker) (locker voter : Addr) (idx : Int) (okv : Bool)
       (hi : info = .rep n locker voter idx okv)
       (hget : alookup n s.ongoing = some t) (hnf : t.finalized = false) (hnx : t.failedV = false)
@@ -335,8 +335,8 @@ theorem lockEth_eff (c : Cfg) (s : St) (pre : Nat) (l : Addr) (n : Name) (a : Na
     · rename_i hh
       exact (aerase_eq_self_of_none _ _ ((has_eq_false_iff _ _).mp (by simpa using hh))).symm
   have := Eff.create (c := c) (s := s) (info := .sub .lock l n a) .lock l n a false s.bal [] rfl
-    (fun _ => hex.1) (fun _ => hex.2) (fun h => by cases h) (Or.inl ⟨rfl, rfl, rfl⟩)
-  simpa [hf] using this
+    hex.1 hex.2 (fun h => by simp [PType.isLock] at h) (Or.inl ⟨rfl, rfl, rfl⟩)
+  simpa [hf, PType.isLock] using this
 
 theorem lockErc_eff (c : Cfg) (s : St) (pre : Nat) (l : Addr) (n : Name) (a : Nat) :
     Eff c s (.sub .lockERC l n a) (lockErc c s pre l n a).st (lockErc c s pre l n a).ev := by
@@ -345,9 +345,17 @@ theorem lockErc_eff (c : Cfg) (s : St) (pre : Nat) (l : Addr) (n : Name) (a : Na
   split; · exact .noop
   split; · exact .noop
   split; · exact .noop
+  split; · exact .noop
+  rename_i hex
+  simp only [Bool.or_eq_true, not_or, Bool.not_eq_true] at hex
+  have hf : (if has s.failed n then aerase s.failed n else s.failed) = aerase s.failed n := by
+    split
+    · rfl
+    · rename_i hh
+      exact (aerase_eq_self_of_none _ _ ((has_eq_false_iff _ _).mp (by simpa using hh))).symm
   have := Eff.create (c := c) (s := s) (info := .sub .lockERC l n a) .lockERC l n a true s.bal [] rfl
-    (fun h => absurd rfl h) (fun h => absurd rfl h) (fun h => by cases h) (Or.inl ⟨rfl, rfl, rfl⟩)
-  simpa using this
+    hex.1 hex.2 (fun h => by simp [PType.isLock] at h) (Or.inl ⟨rfl, rfl, rfl⟩)
+  simpa [hf, PType.isLock] using this
 
 theorem redeemEth_eff (c : Cfg) (s : St) (pre : Nat) (o : Addr) (n : Name) (a : Nat) :
     Eff c s (.sub .redeem o n a) (redeemEth c s pre o n a).st (redeemEth c s pre o n a).ev := by
@@ -365,9 +373,9 @@ theorem redeemEth_eff (c : Cfg) (s : St) (pre : Nat) (o : Addr) (n : Name) (a : 
       · rename_i hex
         simp only [Bool.or_eq_true, not_or, Bool.not_eq_true] at hex
         have := Eff.create (c := c) (s := s) (info := .sub .redeem o n a) .redeem o n a false b2 [.debit n o 0 a] rfl
-          (fun _ => hex.1.1) (fun _ => hex.2) (fun _ => hex.1.2)
+          hex.1.1 hex.2 (fun _ => hex.1.2)
           (Or.inr ⟨rfl, rfl, b1, hb1, hb2⟩)
-        simpa using this
+        simpa [PType.isLock] using this
 
 theorem redeemErc_eff (c : Cfg) (s : St) (pre : Nat) (tt : Bool) (o : Addr) (n : Name) (a : Nat) :
     Eff c s (.sub .redeemERC o n a) (redeemErc c s pre tt o n a).st (redeemErc c s pre tt o n a).ev := by
@@ -385,9 +393,9 @@ theorem redeemErc_eff (c : Cfg) (s : St) (pre : Nat) (tt : Bool) (o : Addr) (n :
       · rename_i hex
         simp only [Bool.or_eq_true, not_or, Bool.not_eq_true] at hex
         have := Eff.create (c := c) (s := s) (info := .sub .redeemERC o n a) .redeemERC o n a tt b2 [.debit n o 1 a] rfl
-          (fun _ => hex.1) (fun _ => hex.2) (fun h => by cases h)
+          hex.1.1 hex.2 (fun _ => hex.1.2)
           (Or.inr ⟨rfl, rfl, b1, hb1, hb2⟩)
-        simpa using this
+        simpa [PType.isLock] using this
 
 theorem report_eff (c : Cfg) (s : St) (n : Name) (l v : Addr) (i : Int) (ok : Bool) :
     Eff c s (.rep n l v i ok) (report c s n l v i ok).st (report c s n l v i ok).ev := by
@@ -540,12 +548,12 @@ theorem newTracker_TOK (c : Cfg) (typ : PType) (o : Addr) (n : Name) (a : Nat) (
 @[simp] theorem setOngoing_passed (s : St) (t : Tracker) : (setOngoing s t).passed = s.passed := rfl
 @[simp] theorem setOngoing_failed (s : St) (t : Tracker) : (setOngoing s t).failed = s.failed := rfl
 @[simp] theorem setOngoing_bal (s : St) (t : Tracker) : (setOngoing s t).bal = s.bal := rfl
-@[simp] theorem mint_ongoing (c : Cfg) (s : St) (t : Tracker) (l : Addr) :
-    (mint c s t l).ongoing = upsert s.ongoing t.name { t with state := .released } := rfl
-@[simp] theorem mint_passed (c : Cfg) (s : St) (t : Tracker) (l : Addr) : (mint c s t l).passed = s.passed := rfl
-@[simp] theorem mint_failed (c : Cfg) (s : St) (t : Tracker) (l : Addr) : (mint c s t l).failed = s.failed := rfl
-@[simp] theorem mint_bal (c : Cfg) (s : St) (t : Tracker) (l : Addr) :
-    (mint c s t l).bal = balAdd (balAdd s.bal l t.typ.cur t.amount) c.supply t.typ.cur t.amount := rfl
+@[simp] theorem mint_ongoing (c : Cfg) (s : St) (t : Tracker) :
+    (mint c s t).ongoing = upsert s.ongoing t.name { t with state := .released } := rfl
+@[simp] theorem mint_passed (c : Cfg) (s : St) (t : Tracker) : (mint c s t).passed = s.passed := rfl
+@[simp] theorem mint_failed (c : Cfg) (s : St) (t : Tracker) : (mint c s t).failed = s.failed := rfl
+@[simp] theorem mint_bal (c : Cfg) (s : St) (t : Tracker) :
+    (mint c s t).bal = balAdd (balAdd s.bal t.owner t.typ.cur t.amount) c.supply t.typ.cur t.amount := rfl
 @[simp] theorem refund_ongoing (c : Cfg) (s : St) (t : Tracker) :
     (refund c s t).ongoing = upsert s.ongoing t.name { t with state := .failed } := rfl
 @[simp] theorem refund_passed (c : Cfg) (s : St) (t : Tracker) : (refund c s t).passed = s.passed := rfl
@@ -717,30 +725,6 @@ def refundCount (n : Name) (evs : List Event) : Nat := evs.countP (Event.isRefun
 /-- the external transaction backs a tracker record in some store -/
 def St.knows (s : St) (n : Name) : Bool := has s.ongoing n || has s.passed n || has s.failed n
 
-/-- the name a submission carries -/
-def Op.subName : Op → Option Name
-  | .lock _ _ _ n _ => some n
-  | .redeem _ _ _ _ n _ => some n
-  | _ => none
-
-def Op.isErcSub : Op → Bool
-  | .lock true _ _ _ _ => true
-  | .redeem true _ _ _ _ _ => true
-  | _ => false
-
-/-- every ERC20 submission (lock or redeem) carries an external transaction that no earlier
-    submission of the history carried: the hypothesis runERC20Lock / runERC20Reddem force -/
-def freshFrom : List Name → List Op → Bool
-  | _, [] => true
-  | used, op :: ops =>
-    (match op.subName with
-     | some n => (!op.isErcSub || !used.contains n) && freshFrom (n :: used) ops
-     | none => freshFrom used ops)
-
-def FreshERC (ops : List Op) : Prop := freshFrom [] ops = true
-
-instance (ops : List Op) : Decidable (FreshERC ops) := by unfold FreshERC; infer_instance
-
 theorem mintCount_append (n : Name) (a b : List Event) : mintCount n (a ++ b) = mintCount n a + mintCount n b := by
   simp [mintCount, List.countP_append]
 
@@ -791,8 +775,8 @@ structure RepEff (c : Cfg) (s s' : St) (ev : List Event) (n : Name) (locker vote
   pas : s'.passed = s.passed
   fai : s'.failed = s.failed
   kind : (ev = [] ∧ s'.bal = s.bal) ∨
-         (ev = [.mint n locker t.typ.cur t.amount] ∧ t'.finalized = true ∧ t.typ.isLock = true ∧
-            s'.bal = balAdd (balAdd s.bal locker t.typ.cur t.amount) c.supply t.typ.cur t.amount) ∨
+         (ev = [.mint n t.owner t.typ.cur t.amount] ∧ t'.finalized = true ∧ t.typ.isLock = true ∧
+            s'.bal = balAdd (balAdd s.bal t.owner t.typ.cur t.amount) c.supply t.typ.cur t.amount) ∨
          (ev = [.refund n t.owner 0 t.amount] ∧ t'.finalized = false ∧ t'.failedV = true ∧ t.typ = .redeem ∧
             X.state = .failed ∧
             s'.bal = balAdd (balAdd s.bal t.owner 0 t.amount) c.supply 0 t.amount)
@@ -814,15 +798,15 @@ inductive Eff2 (c : Cfg) (s : St) (info : OpInfo) (s' : St) (ev : List Event) : 
   | noop (h1 : s' = s) (h2 : ev = [])
   | create (typ : PType) (owner : Addr) (n : Name) (amt : Nat) (tt : Bool)
       (hi : info = .sub typ owner n amt)
-      (hOn : typ ≠ .lockERC → has s.ongoing n = false)
-      (hPa : typ ≠ .lockERC → has s.passed n = false)
-      (hFa : typ = .redeem → has s.failed n = false)
+      (hOn : has s.ongoing n = false)
+      (hPa : has s.passed n = false)
+      (hFa : typ.isLock = false → has s.failed n = false)
       (hbal : (typ.isLock = true ∧ s'.bal = s.bal ∧ ev = []) ∨
               (typ.isLock = false ∧ ev = [.debit n owner typ.cur amt] ∧
                 ∃ b1, balSub s.bal owner typ.cur amt = some b1 ∧ balSub b1 c.supply typ.cur amt = some s'.bal))
       (ong : s'.ongoing = upsert s.ongoing n (newTracker typ owner n amt tt c.witnesses))
       (pas : s'.passed = s.passed)
-      (fai : s'.failed = if typ = .lock then aerase s.failed n else s.failed)
+      (fai : s'.failed = if typ.isLock then aerase s.failed n else s.failed)
   | rep (n : Name) (locker voter : Addr) (idx : Int) (okv : Bool) (t t' X : Tracker)
       (hi : info = .rep n locker voter idx okv)
       (h : RepEff c s s' ev n locker voter idx okv t t' X)
@@ -860,9 +844,9 @@ theorem eff2_of_eff {c : Cfg} {s s' : St} {info : OpInfo} {ev : List Event} (hc 
         xstate'' := Or.inr (Or.inl rfl),
         ong := ?_, pas := rfl, fai := rfl, kind := Or.inr (Or.inl ⟨?_, h1, ?_, ?_⟩) }
     · simp only [mint_ongoing]; rw [fr.2.2.2.1, tok.name]
-    · rw [fr.2.1, fr.2.2.2.2.2.1]
+    · rw [fr.2.1, fr.2.2.2.2.1, fr.2.2.2.2.2.1]
     · rw [← fr.2.1]; exact hl
-    · simp only [mint_bal]; rw [fr.2.1, fr.2.2.2.2.2.1]
+    · simp only [mint_bal]; rw [fr.2.1, fr.2.2.2.2.1, fr.2.2.2.2.2.1]
   | burn n t t' locker voter idx okv hi hget hnf hnx hv h1 hl =>
     have tok := wf n t hget
     have fr := addVote_ok_frame (tok.twf hc) hv
@@ -905,22 +889,11 @@ end OLP.Eth
 namespace OLP.Eth
 open OLP
 
-/-! ## at most one mint per external transaction (under the freshness hypothesis) -/
+/-! ## at most one mint per external transaction (no extra hypothesis) -/
 
-def usedAfter (info : OpInfo) (used : List Name) : List Name :=
-  match info with
-  | .sub _ _ n _ => n :: used
-  | _ => used
-
-theorem mem_usedAfter {info : OpInfo} {used : List Name} {n : Name} (h : n ∈ used) : n ∈ usedAfter info used := by
-  cases info <;> simp [usedAfter, h]
-
-structure InvM (c : Cfg) (s : St) (used : List Name) (evs : List Event) : Prop where
+structure InvM (c : Cfg) (s : St) (evs : List Event) : Prop where
   wf : St.WF c s
-  used : ∀ n, s.knows n = true → n ∈ used
   dOP : ∀ n, has s.ongoing n = true → has s.passed n = false
-  dOF : ∀ n, has s.ongoing n = true → has s.failed n = false
-  dPF : ∀ n, has s.passed n = true → has s.failed n = false
   once : ∀ n, mintCount n evs ≤ 1
   wit : ∀ n, mintCount n evs = 1 →
     has s.passed n = true ∨ ∃ t, alookup n s.ongoing = some t ∧ t.finalized = true
@@ -951,86 +924,28 @@ theorem knows_false {s : St} {n : Name} (h : s.knows n = false) :
   simp only [St.knows, Bool.or_eq_false_iff] at h
   exact ⟨h.1.1, h.1.2, h.2⟩
 
-theorem invM_eff2 {c : Cfg} {s s' : St} {info : OpInfo} {ev : List Event} {used : List Name} {evs : List Event}
-    (I : InvM c s used evs) (wf' : St.WF c s') (h : Eff2 c s info s' ev)
-    (hfresh : ∀ typ o n a, info = .sub typ o n a → typ.isErc = true → n ∉ used) :
-    InvM c s' (usedAfter info used) (evs ++ ev) := by
+theorem invM_eff2 {c : Cfg} {s s' : St} {info : OpInfo} {ev : List Event} {evs : List Event}
+    (I : InvM c s evs) (wf' : St.WF c s') (h : Eff2 c s info s' ev) : InvM c s' (evs ++ ev) := by
   cases h with
   | noop h1 h2 =>
     subst h1 h2
-    exact ⟨wf', fun n hn => mem_usedAfter (I.used n hn), I.dOP, I.dOF, I.dPF, by simpa using I.once, by simpa using I.wit⟩
+    exact ⟨wf', I.dOP, by simpa using I.once, by simpa using I.wit⟩
   | xfer frm to cur amt b1 hi hb hbal ong pas fai hev =>
     subst hev
-    refine ⟨wf', fun n hn => mem_usedAfter (I.used n (by simpa [St.knows, ong, pas, fai] using hn)), ?_, ?_, ?_, ?_, ?_⟩
+    refine ⟨wf', ?_, ?_, ?_⟩
     · intro n; rw [ong, pas]; exact I.dOP n
-    · intro n; rw [ong, fai]; exact I.dOF n
-    · intro n; rw [pas, fai]; exact I.dPF n
     · intro n; rw [mintCount_append]; simpa using I.once n
     · intro n; rw [mintCount_append, ong, pas]; simpa using I.wit n
   | create typ owner n amt tt hi hOn hPa hFa hbal ong pas fai =>
-    subst hi
-    -- the name is absent from the ongoing and passed stores, and from the failed store afterwards
-    have habs : has s.ongoing n = false ∧ has s.passed n = false ∧ has s'.failed n = false := by
-      cases typ with
-      | lock =>
-        refine ⟨hOn (by simp), hPa (by simp), ?_⟩
-        rw [fai]; simp [has_aerase]
-      | redeem =>
-        refine ⟨hOn (by simp), hPa (by simp), ?_⟩
-        rw [fai]; simpa using hFa rfl
-      | lockERC =>
-        have hk : s.knows n = false := by
-          cases hk : s.knows n with
-          | false => rfl
-          | true => exact absurd (I.used n hk) (hfresh _ _ _ _ rfl rfl)
-        have := knows_false hk
-        refine ⟨this.1, this.2.1, ?_⟩
-        rw [fai]; simpa using this.2.2
-      | redeemERC =>
-        have hk : s.knows n = false := by
-          cases hk : s.knows n with
-          | false => rfl
-          | true => exact absurd (I.used n hk) (hfresh _ _ _ _ rfl rfl)
-        have := knows_false hk
-        refine ⟨this.1, this.2.1, ?_⟩
-        rw [fai]; simpa using this.2.2
-    have hfsub : ∀ m, has s'.failed m = true → has s.failed m = true := by
-      intro m hm
-      rw [fai] at hm
-      split at hm
-      · rw [has_aerase] at hm; simp at hm; exact hm.2
-      · exact hm
     have hev0 : ∀ m, mintCount m ev = 0 := by
       intro m
       rcases hbal with ⟨_, _, rfl⟩ | ⟨_, rfl, _⟩ <;> simp
-    refine ⟨wf', ?_, ?_, ?_, ?_, ?_, ?_⟩
-    · intro m hm
-      simp only [usedAfter]
-      by_cases e : m = n
-      · simp [e]
-      · refine List.mem_cons_of_mem _ (I.used m ?_)
-        simp only [St.knows, Bool.or_eq_true] at hm ⊢
-        rcases hm with (hm | hm) | hm
-        · rw [ong, has_upsert] at hm; simp [e] at hm; exact Or.inl (Or.inl hm)
-        · rw [pas] at hm; exact Or.inl (Or.inr hm)
-        · exact Or.inr (hfsub m hm)
+    refine ⟨wf', ?_, ?_, ?_⟩
     · intro m hm
       rw [pas]
       by_cases e : m = n
-      · rw [e]; exact habs.2.1
+      · rw [e]; exact hPa
       · rw [ong, has_upsert] at hm; simp [e] at hm; exact I.dOP m hm
-    · intro m hm
-      by_cases e : m = n
-      · rw [e]; exact habs.2.2
-      · rw [ong, has_upsert] at hm; simp [e] at hm
-        cases hf : has s'.failed m with
-        | false => rfl
-        | true => have := hfsub m hf; rw [I.dOF m hm] at this; cases this
-    · intro m hm
-      rw [pas] at hm
-      cases hf : has s'.failed m with
-      | false => rfl
-      | true => have := hfsub m hf; rw [I.dPF m hm] at this; cases this
     · intro m; rw [mintCount_append, hev0]; simpa using I.once m
     · intro m hm
       rw [mintCount_append, hev0] at hm
@@ -1038,11 +953,10 @@ theorem invM_eff2 {c : Cfg} {s s' : St} {info : OpInfo} {ev : List Event} {used 
       by_cases e : m = n
       · subst e
         rcases this with h1 | ⟨t, h1, _⟩
-        · rw [habs.2.1] at h1; cases h1
-        · have := has_of_alookup h1; rw [habs.1] at this; cases this
+        · rw [hPa] at h1; cases h1
+        · have := has_of_alookup h1; rw [hOn] at this; cases this
       · rw [pas, ong, alookup_upsert]; simpa [e] using this
   | rep n locker voter idx okv t t' X hi h =>
-    subst hi
     have hon : ∀ m, has s'.ongoing m = has s.ongoing m := fun m => by
       rw [h.ong]; exact has_upsert_of_has _ _ _ _ h.hhas
     have hlook : ∀ m, m ≠ n → alookup m s'.ongoing = alookup m s.ongoing := fun m e => by
@@ -1054,13 +968,8 @@ theorem invM_eff2 {c : Cfg} {s s' : St} {info : OpInfo} {ev : List Event} {used 
       rcases I.wit n hc1 with h1 | ⟨u, h1, h2⟩
       · rw [I.dOP n h.hhas] at h1; cases h1
       · rw [h.vs.hget] at h1; cases h1; rw [h.vs.hnf] at h2; cases h2
-    refine ⟨wf', ?_, ?_, ?_, ?_, ?_, ?_⟩
-    · intro m hm
-      simp only [usedAfter]
-      exact I.used m (by simpa [St.knows, hon, h.pas, h.fai] using hm)
+    refine ⟨wf', ?_, ?_, ?_⟩
     · intro m; rw [hon, h.pas]; exact I.dOP m
-    · intro m; rw [hon, h.fai]; exact I.dOF m
-    · intro m; rw [h.pas, h.fai]; exact I.dPF m
     · intro m
       rw [mintCount_append]
       rcases h.kind with ⟨rfl, _⟩ | ⟨rfl, _⟩ | ⟨rfl, _⟩
@@ -1092,18 +1001,15 @@ theorem invM_eff2 {c : Cfg} {s s' : St} {info : OpInfo} {ev : List Event} {used 
         rw [h.pas, hlook m e]; exact I.wit m hm'
 
 /-- replacing the record under an existing name by one that is finalized whenever the old one was -/
-theorem invM_upd {c : Cfg} {s s' : St} {used : List Name} {evs : List Event}
-    (I : InvM c s used evs) (wf' : St.WF c s') (n : Name) (X : Tracker) (hh : has s.ongoing n = true)
-    (e1 : s'.ongoing = upsert s.ongoing n X) (e2 : s'.passed = s.passed) (e3 : s'.failed = s.failed)
+theorem invM_upd {c : Cfg} {s s' : St} {evs : List Event}
+    (I : InvM c s evs) (wf' : St.WF c s') (n : Name) (X : Tracker) (hh : has s.ongoing n = true)
+    (e1 : s'.ongoing = upsert s.ongoing n X) (e2 : s'.passed = s.passed)
     (hfin : ∀ t, alookup n s.ongoing = some t → t.finalized = true → X.finalized = true) :
-    InvM c s' used evs := by
+    InvM c s' evs := by
   have hon : ∀ m, has s'.ongoing m = has s.ongoing m := fun m => by
     rw [e1]; exact has_upsert_of_has _ _ _ _ hh
-  refine ⟨wf', ?_, ?_, ?_, ?_, I.once, ?_⟩
-  · intro m hm; exact I.used m (by simpa [St.knows, hon, e2, e3] using hm)
+  refine ⟨wf', ?_, I.once, ?_⟩
   · intro m; rw [hon, e2]; exact I.dOP m
-  · intro m; rw [hon, e3]; exact I.dOF m
-  · intro m; rw [e2, e3]; exact I.dPF m
   · intro m hm
     rcases I.wit m hm with h1 | ⟨u, h1, h2⟩
     · exact Or.inl (by rw [e2]; exact h1)
@@ -1113,27 +1019,161 @@ theorem invM_upd {c : Cfg} {s s' : St} {used : List Name} {evs : List Event}
       · subst e; exact ⟨X, by simp, hfin u h1 h2⟩
       · exact ⟨u, by simp [e, h1], h2⟩
 
-theorem invM_effEnd {c : Cfg} {s s' : St} {n : Name} {used : List Name} {evs : List Event}
-    (I : InvM c s used evs) (h : EffEnd s n s') : InvM c s' used evs := by
+theorem invM_effEnd {c : Cfg} {s s' : St} {n : Name} {evs : List Event}
+    (I : InvM c s evs) (h : EffEnd s n s') : InvM c s' evs := by
   have wf' := wf_effEnd I.wf h
   cases h with
   | none => exact I
   | save t st' hget hst hst' hfin =>
     have tok := I.wf n t hget
-    refine invM_upd I wf' n { t with state := st' } (has_of_alookup hget) ?_ rfl rfl ?_
+    refine invM_upd I wf' n { t with state := st' } (has_of_alookup hget) ?_ rfl ?_
     · show upsert s.ongoing t.name _ = upsert s.ongoing n _
       rw [tok.name]
     · intro u hu hf
       rw [hget] at hu; cases hu; exact hf
   | toPassed t hget hst =>
-    have hh := has_of_alookup hget
-    refine ⟨wf', ?_, ?_, ?_, ?_, I.once, ?_⟩
+    refine ⟨wf', ?_, I.once, ?_⟩
+    · intro m hm
+      simp only [has_aerase] at hm
+      by_cases e : m = n
+      · simp [e] at hm
+      · simp only [e, decide_false, Bool.not_false, Bool.true_and] at hm
+        simp only [has_upsert, e, decide_false, Bool.false_or]
+        exact I.dOP m hm
     · intro m hm
       by_cases e : m = n
-      · subst e; exact I.used m (by simp [St.knows, hh])
-      · refine I.used m ?_
-        simp only [St.knows, has_aerase, has_upsert, e, decide_false, Bool.not_false, Bool.true_and, Bool.false_or] at hm ⊢
-        exact hm
+      · subst e; exact Or.inl (by simp [has_upsert])
+      · rcases I.wit m hm with h1 | ⟨u, h1, h2⟩
+        · exact Or.inl (by simp [has_upsert, h1])
+        · exact Or.inr ⟨u, by simp only []; rw [alookup_aerase]; simp [e, h1], h2⟩
+  | toFailed t hget hst =>
+    have hh := has_of_alookup hget
+    have tok := I.wf n t hget
+    refine ⟨wf', ?_, I.once, ?_⟩
+    · intro m hm
+      simp only [has_aerase] at hm
+      by_cases e : m = n
+      · simp [e] at hm
+      · simp only [e, decide_false, Bool.not_false, Bool.true_and] at hm
+        exact I.dOP m hm
+    · intro m hm
+      by_cases e : m = n
+      · subst e
+        rcases I.wit m hm with h1 | ⟨u, h1, h2⟩
+        · rw [I.dOP m hh] at h1; cases h1
+        · rw [hget] at h1; cases h1
+          have := tok.fin h2; rw [hst] at this; cases this
+      · rcases I.wit m hm with h1 | ⟨u, h1, h2⟩
+        · exact Or.inl h1
+        · exact Or.inr ⟨u, by simp only []; rw [alookup_aerase]; simp [e, h1], h2⟩
+
+theorem invM_endBlock {c : Cfg} {je : List Name} (ns : List Name) {s s' : St} {evs : List Event}
+    (I : InvM c s evs) (h : endBlock s je ns = some s') : InvM c s' evs := by
+  induction ns generalizing s with
+  | nil => simp [endBlock] at h; exact h ▸ I
+  | cons n ns ih =>
+    unfold endBlock at h
+    split at h
+    · cases h
+    · rename_i s1 h1
+      exact ih (invM_effEnd I (endOne_eff h1)) h
+
+theorem invM_step {c : Cfg} (hc : c.WF) {s : St} {evs : List Event} (I : InvM c s evs) (op : Op) :
+    InvM c (step c s op).st (evs ++ (step c s op).ev) := by
+  by_cases hop : ∃ ns je, op = .endBlock ns je
+  · obtain ⟨ns, je, rfl⟩ := hop
+    simp only [step]
+    split
+    · simpa using I
+    · rename_i s' h; simpa using invM_endBlock ns I h
+  · have he := step_eff c s op (fun ns je e => hop ⟨ns, je, e⟩)
+    exact invM_eff2 I (wf_eff hc I.wf he) (eff2_of_eff hc I.wf he)
+
+theorem invM_empty (c : Cfg) : InvM c St.empty [] :=
+  ⟨wf_empty c, by simp [St.empty, has], by simp, by simp⟩
+
+theorem run_invM {c : Cfg} (hc : c.WF) (ops : List Op) : ∀ (s : St) (evs : List Event),
+    InvM c s evs → InvM c (run c s ops).1 (evs ++ (run c s ops).2) := by
+  induction ops with
+  | nil => intro s evs I; simpa [run] using I
+  | cons op ops ih =>
+    intro s evs I
+    have := ih _ _ (invM_step hc I op)
+    simpa [run, List.append_assoc] using this
+
+/-! ## one record per external transaction across all three stores (no extra hypothesis) -/
+
+structure InvD (c : Cfg) (s : St) : Prop where
+  wf : St.WF c s
+  dOP : ∀ n, has s.ongoing n = true → has s.passed n = false
+  dOF : ∀ n, has s.ongoing n = true → has s.failed n = false
+  dPF : ∀ n, has s.passed n = true → has s.failed n = false
+
+theorem invD_eff2 {c : Cfg} {s s' : St} {info : OpInfo} {ev : List Event}
+    (I : InvD c s) (wf' : St.WF c s') (h : Eff2 c s info s' ev) : InvD c s' := by
+  cases h with
+  | noop h1 h2 => subst h1; exact I
+  | xfer frm to cur amt b1 hi hb hbal ong pas fai hev =>
+    refine ⟨wf', ?_, ?_, ?_⟩
+    · intro n; rw [ong, pas]; exact I.dOP n
+    · intro n; rw [ong, fai]; exact I.dOF n
+    · intro n; rw [pas, fai]; exact I.dPF n
+  | create typ owner n amt tt hi hOn hPa hFa hbal ong pas fai =>
+    have hfa : has s'.failed n = false := by
+      rw [fai]
+      cases hl : typ.isLock with
+      | true => simp [has_aerase]
+      | false => simpa using hFa hl
+    have hfsub : ∀ m, has s'.failed m = true → has s.failed m = true := by
+      intro m hm
+      rw [fai] at hm
+      split at hm
+      · rw [has_aerase] at hm; simp at hm; exact hm.2
+      · exact hm
+    refine ⟨wf', ?_, ?_, ?_⟩
+    · intro m hm
+      rw [pas]
+      by_cases e : m = n
+      · rw [e]; exact hPa
+      · rw [ong, has_upsert] at hm; simp [e] at hm; exact I.dOP m hm
+    · intro m hm
+      by_cases e : m = n
+      · rw [e]; exact hfa
+      · rw [ong, has_upsert] at hm; simp [e] at hm
+        cases hf : has s'.failed m with
+        | false => rfl
+        | true => have := hfsub m hf; rw [I.dOF m hm] at this; cases this
+    · intro m hm
+      rw [pas] at hm
+      cases hf : has s'.failed m with
+      | false => rfl
+      | true => have := hfsub m hf; rw [I.dPF m hm] at this; cases this
+  | rep n locker voter idx okv t t' X hi h =>
+    have hon : ∀ m, has s'.ongoing m = has s.ongoing m := fun m => by
+      rw [h.ong]; exact has_upsert_of_has _ _ _ _ h.hhas
+    refine ⟨wf', ?_, ?_, ?_⟩
+    · intro m; rw [hon, h.pas]; exact I.dOP m
+    · intro m; rw [hon, h.fai]; exact I.dOF m
+    · intro m; rw [h.pas, h.fai]; exact I.dPF m
+
+theorem invD_effEnd {c : Cfg} {s s' : St} {n : Name} (I : InvD c s) (h : EffEnd s n s') : InvD c s' := by
+  have wf' := wf_effEnd I.wf h
+  cases h with
+  | none => exact I
+  | save t st' hget hst hst' hfin =>
+    have tok := I.wf n t hget
+    have hh := has_of_alookup hget
+    have hon : ∀ m, has (upsert s.ongoing n ({ t with state := st' } : Tracker)) m = has s.ongoing m :=
+      fun m => has_upsert_of_has _ _ _ _ hh
+    have e1 : (setOngoing s { t with state := st' }).ongoing = upsert s.ongoing n { t with state := st' } := by
+      show upsert s.ongoing t.name _ = upsert s.ongoing n _
+      rw [tok.name]
+    refine ⟨wf', ?_, ?_, I.dPF⟩
+    · intro m; rw [e1, hon]; exact I.dOP m
+    · intro m; rw [e1, hon]; exact I.dOF m
+  | toPassed t hget hst =>
+    have hh := has_of_alookup hget
+    refine ⟨wf', ?_, ?_, ?_⟩
     · intro m hm
       simp only [has_aerase] at hm
       by_cases e : m = n
@@ -1153,22 +1193,9 @@ theorem invM_effEnd {c : Cfg} {s s' : St} {n : Name} {used : List Name} {evs : L
       · subst e; exact I.dOF m hh
       · simp only [e, decide_false, Bool.false_or] at hm
         exact I.dPF m hm
-    · intro m hm
-      by_cases e : m = n
-      · subst e; exact Or.inl (by simp [has_upsert])
-      · rcases I.wit m hm with h1 | ⟨u, h1, h2⟩
-        · exact Or.inl (by simp [has_upsert, h1])
-        · exact Or.inr ⟨u, by simp only []; rw [alookup_aerase]; simp [e, h1], h2⟩
   | toFailed t hget hst =>
     have hh := has_of_alookup hget
-    have tok := I.wf n t hget
-    refine ⟨wf', ?_, ?_, ?_, ?_, I.once, ?_⟩
-    · intro m hm
-      by_cases e : m = n
-      · subst e; exact I.used m (by simp [St.knows, hh])
-      · refine I.used m ?_
-        simp only [St.knows, has_aerase, has_upsert, e, decide_false, Bool.not_false, Bool.true_and, Bool.false_or] at hm ⊢
-        exact hm
+    refine ⟨wf', ?_, ?_, ?_⟩
     · intro m hm
       simp only [has_aerase] at hm
       by_cases e : m = n
@@ -1188,19 +1215,9 @@ theorem invM_effEnd {c : Cfg} {s s' : St} {n : Name} {used : List Name} {evs : L
       · subst e; rw [I.dOP m hh] at hm; cases hm
       · simp only [e, decide_false, Bool.false_or]
         exact I.dPF m hm
-    · intro m hm
-      by_cases e : m = n
-      · subst e
-        rcases I.wit m hm with h1 | ⟨u, h1, h2⟩
-        · rw [I.dOP m hh] at h1; cases h1
-        · rw [hget] at h1; cases h1
-          have := tok.fin h2; rw [hst] at this; cases this
-      · rcases I.wit m hm with h1 | ⟨u, h1, h2⟩
-        · exact Or.inl h1
-        · exact Or.inr ⟨u, by simp only []; rw [alookup_aerase]; simp [e, h1], h2⟩
 
-theorem invM_endBlock {c : Cfg} {je : List Name} (ns : List Name) {s s' : St} {used : List Name} {evs : List Event}
-    (I : InvM c s used evs) (h : endBlock s je ns = some s') : InvM c s' used evs := by
+theorem invD_endBlock {c : Cfg} {je : List Name} (ns : List Name) {s s' : St}
+    (I : InvD c s) (h : endBlock s je ns = some s') : InvD c s' := by
   induction ns generalizing s with
   | nil => simp [endBlock] at h; exact h ▸ I
   | cons n ns ih =>
@@ -1208,82 +1225,28 @@ theorem invM_endBlock {c : Cfg} {je : List Name} (ns : List Name) {s s' : St} {u
     split at h
     · cases h
     · rename_i s1 h1
-      exact ih (invM_effEnd I (endOne_eff h1)) h
+      exact ih (invD_effEnd I (endOne_eff h1)) h
 
-end OLP.Eth
-
-namespace OLP.Eth
-open OLP
-
-/-! ## histories -/
-
-def usedAfterOp (op : Op) (used : List Name) : List Name :=
-  match op.subName with
-  | some n => n :: used
-  | none => used
-
-theorem usedAfter_info (op : Op) (used : List Name) : usedAfter op.info used = usedAfterOp op used := by
-  cases op <;> simp [usedAfter, usedAfterOp, Op.info, Op.subName]
-
-theorem isErc_subTyp (r e : Bool) : (subTyp r e).isErc = e := by
-  cases r <;> cases e <;> rfl
-
-theorem fresh_head {used : List Name} {op : Op} {ops : List Op} (h : freshFrom used (op :: ops) = true) :
-    (∀ typ o n a, op.info = .sub typ o n a → typ.isErc = true → n ∉ used) ∧
-    freshFrom (usedAfterOp op used) ops = true := by
-  cases op with
-  | lock erc pre l n a =>
-    simp only [freshFrom, Op.subName, Op.isErcSub, Bool.and_eq_true, Bool.or_eq_true, Bool.not_eq_true'] at h
-    refine ⟨?_, by simpa [usedAfterOp, Op.subName] using h.2⟩
-    intro typ o n' a' hi he
-    simp only [Op.info, OpInfo.sub.injEq] at hi
-    obtain ⟨rfl, rfl, rfl, rfl⟩ := hi
-    rw [isErc_subTyp] at he; subst he
-    rcases h.1 with h1 | h1
-    · simp at h1
-    · simpa using h1
-  | redeem erc pre tt o n a =>
-    simp only [freshFrom, Op.subName, Op.isErcSub, Bool.and_eq_true, Bool.or_eq_true, Bool.not_eq_true'] at h
-    refine ⟨?_, by simpa [usedAfterOp, Op.subName] using h.2⟩
-    intro typ o' n' a' hi he
-    simp only [Op.info, OpInfo.sub.injEq] at hi
-    obtain ⟨rfl, rfl, rfl, rfl⟩ := hi
-    rw [isErc_subTyp] at he; subst he
-    rcases h.1 with h1 | h1
-    · simp at h1
-    · simpa using h1
-  | report n l v i ok => exact ⟨fun _ _ _ _ hi => by simp [Op.info] at hi, by simpa [freshFrom, usedAfterOp, Op.subName] using h⟩
-  | send f t cur a => exact ⟨fun _ _ _ _ hi => by simp [Op.info] at hi, by simpa [freshFrom, usedAfterOp, Op.subName] using h⟩
-  | endBlock ns je => exact ⟨fun _ _ _ _ hi => by simp [Op.info] at hi, by simpa [freshFrom, usedAfterOp, Op.subName] using h⟩
-
-theorem invM_step {c : Cfg} (hc : c.WF) {s : St} {used : List Name} {evs : List Event} (I : InvM c s used evs)
-    (op : Op) (hf : ∀ typ o n a, op.info = .sub typ o n a → typ.isErc = true → n ∉ used) :
-    InvM c (step c s op).st (usedAfterOp op used) (evs ++ (step c s op).ev) := by
+theorem invD_step {c : Cfg} (hc : c.WF) {s : St} (I : InvD c s) (op : Op) : InvD c (step c s op).st := by
   by_cases hop : ∃ ns je, op = .endBlock ns je
   · obtain ⟨ns, je, rfl⟩ := hop
-    simp only [step, usedAfterOp, Op.subName]
+    simp only [step]
     split
-    · simpa using I
-    · rename_i s' h; simpa using invM_endBlock ns I h
+    · exact I
+    · rename_i s' h; exact invD_endBlock ns I h
   · have he := step_eff c s op (fun ns je e => hop ⟨ns, je, e⟩)
-    rw [← usedAfter_info]
-    exact invM_eff2 I (wf_eff hc I.wf he) (eff2_of_eff hc I.wf he) hf
+    exact invD_eff2 I (wf_eff hc I.wf he) (eff2_of_eff hc I.wf he)
 
-theorem invM_empty (c : Cfg) : InvM c St.empty [] [] :=
-  ⟨wf_empty c, by simp [St.knows, St.empty, has], by simp [St.empty, has], by simp [St.empty, has],
-   by simp [St.empty, has], by simp, by simp⟩
+theorem invD_empty (c : Cfg) : InvD c St.empty :=
+  ⟨wf_empty c, by simp [St.empty, has], by simp [St.empty, has], by simp [St.empty, has]⟩
 
-theorem run_invM {c : Cfg} (hc : c.WF) (ops : List Op) : ∀ (s : St) (used : List Name) (evs : List Event),
-    InvM c s used evs → freshFrom used ops = true →
-    ∃ used', InvM c (run c s ops).1 used' (evs ++ (run c s ops).2) := by
+theorem run_invD {c : Cfg} (hc : c.WF) (ops : List Op) : ∀ (s : St), InvD c s → InvD c (run c s ops).1 := by
   induction ops with
-  | nil => intro s used evs I _; exact ⟨used, by simpa [run] using I⟩
+  | nil => intro s I; simpa [run] using I
   | cons op ops ih =>
-    intro s used evs I hf
-    have hh := fresh_head hf
-    have I' := invM_step hc I op hh.1
-    obtain ⟨u', I''⟩ := ih _ _ _ I' hh.2
-    exact ⟨u', by simpa [run, List.append_assoc] using I''⟩
+    intro s I
+    have := ih _ (invD_step hc I op)
+    simpa [run] using this
 
 /-! ## at most one refund per external transaction (no extra hypothesis) -/
 
@@ -1339,10 +1302,8 @@ theorem invR_eff2 {c : Cfg} {s s' : St} {info : OpInfo} {ev : List Event} {evs :
       intro u hu hty
       rw [ong] at hu; simp at hu; subst hu
       have hty' : typ = .redeem := hty
-      have h1 := hOn (by rw [hty']; simp)
-      have h2 := hPa (by rw [hty']; simp)
-      have h3 := hFa hty'
-      simp [St.knows, h1, h2, h3] at hk
+      have h3 := hFa (by rw [hty']; rfl)
+      simp [St.knows, hOn, hPa, h3] at hk
     · refine ⟨?_, ?_⟩
       · simp only [St.knows, Bool.or_eq_true] at hk ⊢
         rcases hk with (hk | hk) | hk
@@ -1483,12 +1444,12 @@ def circ (sup : Addr) (cur : Nat) : Bal → Int
 
 def OpInfo.avoids (sup : Addr) : OpInfo → Bool
   | .sub _ o _ _ => decide (o ≠ sup)
-  | .rep _ l _ _ _ => decide (l ≠ sup)
+  | .rep _ _ _ _ _ => true          -- the report's Locker field is no longer read
   | .xf f t => decide (f ≠ sup) && decide (t ≠ sup)
   | .other => true
 
-/-- no submitter, named beneficiary, sender or receiver is the supply address itself (it is not a
-    key-derived address: nobody can sign for it, and SEND's validation refuses it) -/
+/-- no submitter, sender or receiver is the supply address itself (it is not a key-derived address:
+    nobody can sign for it, and SEND's validation refuses it) -/
 def Op.avoids (sup : Addr) (op : Op) : Bool := op.info.avoids sup
 
 def weight (sup : Addr) (cur : Nat) (k : Addr × Nat) (x : Int) : Int := if k.2 = cur ∧ k.1 ≠ sup then x else 0
@@ -1593,8 +1554,7 @@ theorem invS_eff2 {c : Cfg} {s s' : St} {info : OpInfo} {ev : List Event}
         rw [e2, e1, gap_balAdd_sup, gap_balAdd_other _ _ _ _ _ _ hav, I.eq cu]
         split <;> omega
   | rep n locker voter idx okv t t' X hi h =>
-    subst hi
-    simp only [OpInfo.avoids, decide_eq_true_eq] at hav
+    have hav : t.owner ≠ c.supply := I.own n t h.vs.hget
     have hown : ∀ m u, alookup m s'.ongoing = some u → u.owner ≠ c.supply := by
       intro m u hu
       rw [h.ong, alookup_upsert] at hu
@@ -1740,13 +1700,11 @@ def TwoThirds (c : Cfg) (done : List Op) (n : Name) (ok : Bool) : Prop :=
   ∃ ws : List Addr, ws.Nodup ∧ (∀ w ∈ ws, w ∈ c.witnesses ∧ ∃ l i, Op.report n l w i ok ∈ done) ∧
     2 * c.witnesses.length < 3 * ws.length
 
-/-- a mint is justified: two thirds reported success, some lock submission of this external
-    transaction carries exactly the minted amount in that currency, and the beneficiary is the
-    Locker named by a success report (NOT necessarily the submitter: that is the defect) -/
+/-- a mint is justified: two thirds reported success, and a lock submission of this external
+    transaction by the beneficiary itself carries exactly the minted amount in that currency -/
 def MintOK (c : Cfg) (done : List Op) (n : Name) (to : Addr) (cur amt : Nat) : Prop :=
   TwoThirds c done n true ∧
-  (∃ op ∈ done, ∃ typ owner, op.info = .sub typ owner n amt ∧ typ.isLock = true ∧ typ.cur = cur) ∧
-  (∃ v i, Op.report n to v i true ∈ done)
+  (∃ op ∈ done, ∃ typ, op.info = .sub typ to n amt ∧ typ.isLock = true ∧ typ.cur = cur)
 
 /-- a refund is justified: two thirds reported failure and it pays the submitter of an ETH redeem of
     this external transaction exactly the redeemed amount -/
@@ -1760,8 +1718,8 @@ theorem TwoThirds.mono {c : Cfg} {done done' : List Op} {n : Name} {ok : Bool} (
 
 theorem MintOK.mono {c : Cfg} {done done' : List Op} {n : Name} {to : Addr} {cur amt : Nat}
     (hs : ∀ o ∈ done, o ∈ done') (h : MintOK c done n to cur amt) : MintOK c done' n to cur amt := by
-  obtain ⟨h1, ⟨op, hop, h2⟩, ⟨v, i, h3⟩⟩ := h
-  exact ⟨h1.mono hs, ⟨op, hs _ hop, h2⟩, ⟨v, i, hs _ h3⟩⟩
+  obtain ⟨h1, ⟨op, hop, h2⟩⟩ := h
+  exact ⟨h1.mono hs, ⟨op, hs _ hop, h2⟩⟩
 
 theorem RefundOK.mono {c : Cfg} {done done' : List Op} {n : Name} {to : Addr} {cur amt : Nat}
     (hs : ∀ o ∈ done, o ∈ done') (h : RefundOK c done n to cur amt) : RefundOK c done' n to cur amt := by
@@ -1907,9 +1865,9 @@ theorem invH_eff2 {c : Cfg} {s s' : St} {info : OpInfo} {ev : List Event} {done 
             rw [threshold_of_votes_frame h.twits] at h2
             omega
           subst hok
-          refine ⟨twoThirds_of_backed hc true hXw hXl hbX (by simpa using hXf), ?_, ⟨voter, idx, hthis⟩⟩
+          refine ⟨twoThirds_of_backed hc true hXw hXl hbX (by simpa using hXf), ?_⟩
           obtain ⟨op, h1, h2⟩ := hold.origin n t h.vs.hget
-          exact ⟨op, h1, t.typ, t.owner, h2, hl, rfl⟩
+          exact ⟨op, h1, t.typ, h2, hl, rfl⟩
       · intro n' to' cur' amt' hm
         rcases List.mem_append.mp hm with hm | hm
         · exact hold.refunds _ _ _ _ hm
@@ -2100,11 +2058,12 @@ theorem exCfg_wf : exCfg.WF := ⟨by decide⟩
 def exHonest : List Op :=
   [.lock false 0 1 7 40, .report 7 1 11 0 true, .report 7 1 12 1 true, .report 7 1 13 2 true, .endBlock [7] []]
 
-/-- as above, but the report that crosses the threshold names account 2 (S21) -/
+/-- as above, but the report that crosses the threshold names account 2 (harmless since 0a509b2) -/
 def exLiar : List Op :=
   [.lock false 0 1 7 40, .report 7 1 11 0 true, .report 7 1 12 1 true, .report 7 2 13 2 true]
 
-/-- an ERC20 lock (external tx 8, 30 tokens) is minted, archived, submitted again and minted again -/
+/-- an ERC20 lock (external tx 8, 30 tokens) is minted and archived; the resubmission is refused
+    (before repair 9de5f06 it was accepted and minted again) -/
 def exDoubleMint : List Op :=
   [.lock true 0 1 8 30, .report 8 1 11 0 true, .report 8 1 12 1 true, .report 8 1 13 2 true, .endBlock [8] [],
    .lock true 0 1 8 30, .report 8 1 11 0 true, .report 8 1 12 1 true, .report 8 1 13 2 true]
@@ -2113,5 +2072,14 @@ def exDoubleMint : List Op :=
 def exRefund : List Op :=
   exHonest ++ [.redeem false 0 false 1 9 25, .report 9 1 11 0 false, .report 9 1 12 1 false, .report 9 1 13 2 false,
     .endBlock [9] []]
+
+/-- ETH and ERC20 locks are minted to account 1; an ETH redeem (external tx 9) fails and is archived
+    in the failed store; an ERC20 redeem carrying the same external transaction is refused (before
+    repair efdfa81 runERC20Reddem did not consult the failed store and accepted it) -/
+def exTwoRecords : List Op :=
+  [.lock false 0 1 7 40, .report 7 1 11 0 true, .report 7 1 12 1 true, .report 7 1 13 2 true,
+   .lock true 0 1 8 30, .report 8 1 11 0 true, .report 8 1 12 1 true, .report 8 1 13 2 true, .endBlock [7, 8] [],
+   .redeem false 0 false 1 9 5, .report 9 1 11 0 false, .report 9 1 12 1 false, .report 9 1 13 2 false, .endBlock [9] [],
+   .redeem true 0 false 1 9 5]
 
 end OLP.Eth
